@@ -57,7 +57,28 @@ class RecStream:
         return out
 
     def readline(self, n=-1):
-        raise AssertionError('readline not expected')
+        # PEP 3333 requires the method; the code under test is not expected to use it
+        self.readline_calls = getattr(self, 'readline_calls', 0) + 1
+        out = bytearray()
+        while n < 0 or len(out) < n:
+            c = self.read(1)
+            if not c:
+                break
+            out += c
+            if c == b'\n':
+                break
+        return bytes(out)
+
+    def readlines(self, hint=-1):
+        out = []
+        while True:
+            ln = self.readline()
+            if not ln:
+                return out
+            out.append(ln)
+
+    def __iter__(self):
+        return iter(self.readline, b'')
 
     @property
     def consumed(self):
@@ -170,6 +191,7 @@ def call_app(app, env, consume=True):
     r.env = env
     r.iterable = None
     pb = r.problems
+    errstream = env['wsgi.errors']      # middleware may replace the environ entry
 
     def start_response(status, headers, exc_info=None):
         r.sr_calls += 1
@@ -223,17 +245,17 @@ def call_app(app, env, consume=True):
         it = app(env, start_response)
     except BaseException as e:   # noqa
         r.escaped = e
-        r.errors = env['wsgi.errors'].getvalue()
+        r.errors = errstream.getvalue()
         return r
     r.iterable = it
     if it is None:
         pb.append('application returned None')
-        r.errors = env['wsgi.errors'].getvalue()
+        r.errors = errstream.getvalue()
         return r
     if isinstance(it, (str, bytes)):
         pb.append('application returned a bare string')
     if not consume:
-        r.errors = env['wsgi.errors'].getvalue()
+        r.errors = errstream.getvalue()
         return r
     try:
         for chunk in it:
@@ -256,7 +278,7 @@ def call_app(app, env, consume=True):
     r.body = b''.join(r.chunks)
     if r.sr_calls == 0:
         pb.append('start_response never called')
-    r.errors = env['wsgi.errors'].getvalue()
+    r.errors = errstream.getvalue()
     return r
 
 
